@@ -39,3 +39,36 @@ Example C20_resumed_event_is_delivered :
                                  Step 0%nat; Step 0%nat; Step 1%nat] ++ concat (repeat [Start 2%nat OpCons; Step 2%nat; Step 2%nat; Step 2%nat; Step 2%nat] 2)) init in
   yielded_of (log s) = [7; 8].
 Proof. vm_compute. reflexivity. Qed.
+
+(* ---- the positive half, zero-copy full-sync Uni channel (Chan/ChanZ.v over Alloc/ZcUni.v, the machine in lock-step with
+   ChannelUniZeroCopyFullSync; Alloc/ZcSolo.v, Chan/ChanZInst.v): send_with_async = allocate a pool slot ; await ; publish the id.
+   In ANY state of ANY run of the channel in which no thread stands between a flag CAS and the flag store - the other threads are idle,
+   parked between operations, or suspended inside send_with_async - a consume takes 2 own steps, a send at most 4, a handle release 2:
+   nobody waits for the suspended producer.  (`suspended` threads hold no flag: ZcSolo.suspended_holds_no_flag.) ---- *)
+From RM Require Import Chan ZeroCopy ZcUni ZcSolo ChanZ ChanZProps ChanZInst.
+Import ZC.
+
+Theorem C20_zero_copy_full_sync_suspended_send_blocks_nobody :
+  forall N, 0 < N -> forall M k wr cevs t,
+  let s := q _ (zcf_run N M k wr cevs) in
+  (forall u, holds_lock (fthr (ua _ s) u) = false /\ holds_lock (fthr (ub _ s) u) = false) ->
+  uthr _ s t = UIdle ->
+  done_with s (solo N 2 (zstart s t OpCons) t) t OpCons /\
+  (forall v, exists n, (n <= 4)%nat /\ done_with s (solo N n (zstart s t (OpPub v)) t) t (OpPub v)) /\
+  (forall id, uheld _ s t = Some id -> let s' := solo N 2 (zrelease s t) t in uthr _ s' t = UIdle /\ unlocked s' /\ ulog _ s' = ulog _ s).
+Proof. exact zcf_suspended_send_blocks_nobody. Qed.
+Print Assumptions C20_zero_copy_full_sync_suspended_send_blocks_nobody.
+
+(* non-vacuity: a channel run in which thread 0's send has allocated its slot and stands before the publication of the id (what a
+   suspended send_with_async looks like): it is `suspended`, nobody holds a flag, thread 1 is idle - the hypotheses hold; and thread 1's
+   send, run alone from there, completes in 4 steps while thread 0 still has not moved *)
+Example C20_zero_copy_nonvacuous :
+  let s := q _ (zcf_run 4 1 1 (wake_rule_fullsync 1) [CStart 0 (CoSend 7); CStep 0; CStep 0]) in
+  suspended s 0 /\ (forall u, holds_lock (fthr (ua _ s) u) = false /\ holds_lock (fthr (ub _ s) u) = false) /\ uthr _ s 1%nat = UIdle /\
+  let s' := solo 4 4 (zstart s 1%nat (OpPub 8)) 1%nat in
+  map snd (ulog _ s') = [ROk 8 1] /\ suspended s' 0.
+Proof.
+  split; [exists 7, 0; vm_compute; repeat split; reflexivity|].
+  split; [intros u; vm_compute; destruct u as [|[|u]]; split; reflexivity|].
+  split; [reflexivity|]. split; [vm_compute; reflexivity|exists 7, 0; vm_compute; repeat split; reflexivity].
+Qed.
